@@ -15,18 +15,19 @@ from checks import _valcommon as vc
 from checks import _valgen as vg
 
 MANIFEST = dict(
-    technique="Coq: range lemma on exact decimals, version-parametricity of the in-place store pruning, kernel-evaluated check over all annotated entries x representative versions, state-machine induction for the caches; extracted-model correspondence + independent Python oracles",
-    text=("Coq theorems (Props/C09.v) over a model of Validator in which a jsonref load is a root document plus a store of shared file objects and "
-          "get_versioned_properties mutates that store in place: range_test (is_valid_for_version true iff min <= v <= max with the defaults 0.0/1000.0, exact decimal order, related to Q); "
-          "prune_parametric (pruning depends on the version only through its comparisons with the bounds occurring in the schema files, universal); "
-          "every_annotation_every_version (for EVERY version, the schema validate(version) runs on for root map equals the declaratively pruned expanded schema: each annotated keyword/object/alternative "
-          "is present exactly in range in every parent context, everything else untouched; proved by evaluating 2|B|+1 representative versions in the kernel against the regenerated schema files and lifting by parametricity); "
-          "prune_idem (pruning the cached object again changes nothing, all versions, all schema names); cache_coherent (any history of validate/get_versioned_schema/get_expanded_schema calls with arbitrary versions on one Validator "
-          "answers like fresh Validators, under the stated side condition that the cache keys name+str(version) of the history do not collide); cache_key_collision_refuted (hex+'2' = hex2). "
-          "Partial: prune_spec / visit_order_irrelevant are established for the shipped schema files (all versions) rather than for arbitrary stores. "
-          "Tie to validator.py: extracted model vs real get_versioned_schema for every schema name x every bound, just below, just above, None, 0, ints; validate at versions on generated documents; random call histories."),
+    technique="Coq: range lemma on exact decimals (related to Q), version-parametricity of the in-place store pruning, kernel-evaluated checks over the generated schema files at 2|B|+1 representative versions lifted to all versions, state-machine induction for the caches; extracted-model correspondence + independent Python oracles",
+    text=("Coq theorems (Props/C09.v, 14, all closed) over a model of Validator in which a jsonref load is a root document plus a store of shared file objects and "
+          "get_versioned_properties mutates that store in place: C09_range_test [U] (is_valid_for_version is True iff min <= v <= max on the rationals, defaults 0.0/1000.0); "
+          "C09_prune_parametric [U] (pruning depends on the version only through its comparisons with the bound numbers occurring in the load; universal over stores, documents, fuel, versions) and C09_representatives [U]+[F]; "
+          "C09_every_annotation_every_version / C09_validate_uses_pruned_schema [F]+[U] (for EVERY truthy version the schema get_versioned_schema returns and validate runs on for root map is, as a walked tree, "
+          "the expanded schema with each annotated keyword/object/alternative removed exactly when out of range, at every depth and below lists, nothing else changed; re-proved against the regenerated schema files on every build); "
+          "C09_versionless_unpruned; C09_prune_idem and C09_prune_fails_only_without_properties [F]+[U] (all 37 schema files, every version); "
+          "C09_prune_spec_partial (per-file characterisation of the traversal: dict-reachable files locally pruned, others untouched, no visit order - for the generated files and every version, not for arbitrary stores) and C09_all_blocks_dict_reachable [F]; "
+          "C09_cache_coherent [U] (every history of validate/get_versioned_schema/get_expanded_schema calls on one Validator answers like fresh Validators, under the stated side condition that the cache keys name+str(version) of the history do not collide); "
+          "C09_cache_key_collision_refuted [R] ('hex'+str(2) = 'hex2'). "
+          "Tie to validator.py: extracted model vs real get_versioned_schema (walked proxy tree) for every schema name x every bound, just below, just above, None, 0, ints; validate at versions on generated documents; random call histories on one Validator; str(version)."),
     design_ref="DESIGN.md 7/C09",
-    note="C09: jsonref (one shared object per referenced file within one load) and jsonschema are modelled, tied by O-ver/O-val/O-hist. Validation with schema_name other than map leaves symbol.json unpruned below style.symbol (outside the property's observation points; reported, not a violation).")
+    note="C09: jsonref (one shared object per referenced file within one load) and jsonschema are modelled, tied by O-ver/O-val/O-hist. Validation with schema_name other than map leaves symbol.json unpruned below style.symbol (outside the property's observation points; reported, not a violation). Versions outside [0, 1000] delete every properties dict that has a METADATA keyword (default range applies); outside the property's quantifier, covered by the Coq statement.")
 
 COMPONENTS = ["validator"]
 TARGETS = []
